@@ -112,10 +112,60 @@ def gen_call(rng, idx):
         rng.shuffle(p)
     perms.append(p)
     grid = [i / 4.0 for i in range(0, 4 * nseg + 1)]
-    return {'x': xs, 'y': ys, 'w': ws, 'perms': perms, 'opts': opts, 'maxiter': maxiter, 'lower': lower, 'upper': upper,
+    call = {'x': xs, 'y': ys, 'w': ws, 'perms': perms, 'opts': opts, 'maxiter': maxiter, 'lower': lower, 'upper': upper,
             'grid': grid, 'refit': maxiter >= 3, 'outliers': outl, 'zero_weight': zw, 'clear': clear, 'sigma': sigma,
             # outliers that MUST be rejected: >= 20 sigma, not more heavily weighted than the bulk, low leverage
             'must_reject': [i for i, a in zip(outl, amps) if a >= 20 and ws[i] <= 16.0 and n >= 3 * (nseg + k - 1)]}
+    # input classes: integer-typed / float32 ydata (exactly representable: y*16 is an integer, weights / 256 keep the
+    # residuals in sigma units), float32 weights; the same data in other units (y * s, invvar / s^2)
+    t = idx % 9
+    if t in (2, 5) and shape == 'quad':
+        call['y'] = [float(round(16 * y)) for y in ys]
+        call['w'] = [w / 256.0 for w in ws]
+        call['ydtype'] = 'int32' if t == 2 else 'int64'
+    elif t == 7 and shape == 'quad':
+        call['ydtype'] = 'float32'
+        call['wdtype'] = 'float32'
+    if idx % 4 == 1:
+        call['scale'] = [2.0 ** -56, 2.0 ** 56, 2.0 ** -20, 2.0 ** 30][(idx // 4) % 4]
+    return call
+
+
+def gen_ties(rng, idx):
+    """>= 30 points with tied abscissae in unsorted order; tied points differ in weight (zero / negative weights) and carry
+    outliers.  The sort is then not unique: the mask must still be in the caller's order (direct checks only)."""
+    k = rng.choice([2, 3, 4])
+    nseg = rng.randint(2, 3)
+    base = [i / 4.0 for i in range(0, 4 * nseg + 1)]
+    xs = []
+    for b in base:
+        xs += [b] * rng.randint(2, 4)
+    n = len(xs)
+    a0, a1 = C.dyadic(rng, -2, 2, 2), C.dyadic(rng, -1, 1, 2)
+    ys = [a0 + a1 * x + rng.randint(-4, 4) / 16.0 for x in xs]
+    ws = [16.0] * n
+    idxs = list(range(n))
+    rng.shuffle(idxs)
+    zw = sorted(idxs[:rng.randint(3, 6)])
+    for i in zw:
+        ws[i] = rng.choice([0.0, -1.0])
+        ys[i] += 50.0
+    outl = sorted(idxs[6:6 + rng.randint(1, 3)])
+    for i in outl:
+        ys[i] += rng.choice([-1, 1]) * 10.0
+    order = list(range(n))
+    rng.shuffle(order)                              # the FIRST permutation is already unsorted
+    xs, ys, ws = [xs[i] for i in order], [ys[i] for i in order], [ws[i] for i in order]
+    inv = {old: new for new, old in enumerate(order)}
+    zw, outl = sorted(inv[i] for i in zw), sorted(inv[i] for i in outl)
+    perms = [list(range(n))]
+    for _ in range(2):
+        p = list(range(n))
+        rng.shuffle(p)
+        perms.append(p)
+    return {'x': xs, 'y': ys, 'w': ws, 'perms': perms, 'opts': {'nord': k, 'nbkpts': nseg + 1}, 'maxiter': rng.choice([1, 3, 10]),
+            'lower': 5.0, 'upper': 5.0, 'grid': [i / 4.0 for i in range(0, 4 * nseg + 1)], 'refit': False, 'outliers': outl,
+            'zero_weight': zw, 'clear': True, 'sigma': 0.25, 'must_reject': [], 'ties': True}
 
 
 def gen_degenerate(rng, idx):
@@ -174,7 +224,8 @@ def correspond(ctx, proof_ok=True):
         raise RuntimeError('C10/Model.v does not build:\n' + log[-2000:])
     rng = ctx.rng
     ncalls = ctx.n(80, 500)
-    calls = [gen_call(rng, i) for i in range(ncalls)] + [gen_degenerate(rng, i) for i in range(ctx.n(8, 40))]
+    calls = [gen_call(rng, i) for i in range(ncalls)] + [gen_degenerate(rng, i) for i in range(ctx.n(8, 40))] + \
+        [gen_ties(rng, i) for i in range(ctx.n(8, 40))]
     ncalls = len(calls)
     nb = 8
     outs = C.run_impl_parallel('c10_impl.py', [calls[i::nb] for i in range(nb)])
@@ -202,6 +253,31 @@ def correspond(ctx, proof_ok=True):
         bad = [x for x in runs if 'err' in x]
         if bad:
             viol('C10:iterfit:impl=%s' % bad[0]['err'], 'iterfit raised %s: %s' % (bad[0]['err'], bad[0].get('msg', '')), c, r)
+            continue
+        mut = [x for x in runs if x.get('args_mutated') or x.get('result_aliases_arg')]
+        if mut:
+            viol('C10:iterfit:argument-modified', 'iterfit modified a caller-owned array (%s) or returned a mask sharing memory with an argument'
+                 % mut[0].get('args_mutated'), c, r)
+        if c.get('ties'):
+            # tied abscissae: judged on the real code alone (the sort is not unique; the model assumes distinct x)
+            stats['tie_inputs'] = stats.get('tie_inputs', 0) + 1
+            if any('degenerate' in x for x in runs):
+                continue
+            n = len(c['x'])
+            om = []
+            for p, run in zip(c['perms'], runs):
+                m = [None] * n
+                for pos, src in enumerate(p):
+                    m[src] = run['mask'][pos]
+                om.append(m)
+            hist = ['iterfit(x[p0], y[p0], w[p0])', 'refill the same arrays in place with permutation p1', 'iterfit(...)', 'refill with p2', 'iterfit(...)']
+            if any(m != om[0] for m in om[1:]):
+                viol('C10:iterfit:ties:mask-not-permuted', 'tied abscissae: permuting the input does not permute the returned mask identically', c, r, extra={'history': hist})
+            if any(not close_vec(run['curve'], runs[0]['curve'], 1e-9) for run in runs[1:]):
+                viol('C10:iterfit:ties:curve-depends-on-order', 'tied abscissae: the fitted curve depends on the order of the input', c, r, extra={'history': hist})
+            if any(any(m[j] for j in c['zero_weight']) for m in om):
+                viol('C10:iterfit:ties:zero-weight-not-flagged', 'tied abscissae: a point with non-positive inverse variance is flagged True '
+                     '(mask entries swapped among points of equal x)', c, r)
             continue
         if c.get('direct_only'):
             # iterfit gives up early on these inputs; the mask must still honour the weights, in the caller's order
@@ -252,6 +328,16 @@ def correspond(ctx, proof_ok=True):
         if c['clear'] and c['maxiter'] >= 1 and max(c['lower'], c['upper']) <= 5 and len(c['outliers']) <= 2:
             if any(orig_masks[0][j] for j in c['must_reject']):
                 viol('C10:iterfit:outlier-kept', 'a clear outlier (>= 20 sigma, limits <= 5 sigma, ordinary weight) is still flagged True', c, r)
+        sc = r.get('scaled')
+        if sc is not None:
+            stats['scale_checks'] = stats.get('scale_checks', 0) + 1
+            s_ = c['scale']
+            if 'err' in sc:
+                viol('C10:iterfit:scaled:impl=%s' % sc['err'], 'iterfit on y*%g, invvar/%g^2 raised %s' % (s_, s_, sc['err']), c, r)
+            elif sc['curve'] is None or sc['mask'] != runs[0]['mask'] or \
+                    not all(abs(a - s_ * b) <= 1e-9 * abs(s_) * (1 + max(abs(v) for v in runs[0]['curve'])) for a, b in zip(sc['curve'], runs[0]['curve'])):
+                viol('C10:iterfit:scaling', 'the same data in other units (y*%g, invvar/%g^2) give a different mask or a curve that is not %g times the original'
+                     % (s_, s_, s_), c, r)
         rf = r.get('refit')
         if rf is not None:
             if 'err' in rf and sum(1 for m in runs[0]['mask'] if m) <= c['opts']['nord']:
